@@ -521,6 +521,12 @@ class Interp(ExprMixin):
     def st_For(self, s, st, frame, out):
         it, st = self.eval(s.iter, st, frame, out)
         consts = self.const_elements(it, st)
+        if consts is not None:
+            consts = [V(C(c)) for c in consts]
+        elif len(it) == 1 and tag(next(iter(it))) == "tuple" and 0 < len(next(iter(it))[1]) <= 12 \
+                and all(len(x) == 1 and tag(next(iter(x))) == "tuple" and all(len(y) == 1 for y in next(iter(x))[1]) for x in next(iter(it))[1]):
+            # a literal table of (constant, function) rows (`TABLE.items()`): one iteration per row
+            consts = list(next(iter(it))[1])
         if consts is not None and not s.orelse:
             # unrolled: one iteration per constant, in order
             cur = st
@@ -528,7 +534,7 @@ class Interp(ExprMixin):
             for c in consts:
                 if cur is None:
                     break
-                hs = self.assign(s.target, V(C(c)), cur, frame, out)
+                hs = self.assign(s.target, c, cur, frame, out)
                 o = self.exec_block(s.body, hs, frame)
                 for l in o.raises:
                     for x in o.raise_states(l):
@@ -746,7 +752,13 @@ class Interp(ExprMixin):
             rec["held_may"] = lk in st.held_may
             rec["handling"] = st.handling
             probes = frozenset((c, k, h - {lk}) for (c, k, h) in st.probes)
-            if lk not in st.held_must:
+            rec["conditional"] = getattr(op, "conditional", False)
+            if lk not in st.held_must and getattr(op, "conditional", False):
+                # tolerant release: nothing raises; if the key is in the list it is another caller's claim that goes
+                if lk not in st.held_may:
+                    rec["after"] = st
+                    return st
+            elif lk not in st.held_must:
                 # list.remove(x) raises ValueError when this call does not hold the claim (it then
                 # either fails, or - worse - removes another caller's claim of the same key)
                 out.add_raise("ValueError", st)
